@@ -31,6 +31,19 @@ def sweep(tier, seed):
             r = N.replay_dot("nvec=%d,%s" % (n, rel), {}, {})
             if r["reproduced"]:
                 viol.append({"name": "C09.native.dot[nvec=%d,%s]" % (n, rel), "input": r.get("input"), "observed": r["observed"]})
+    # norms of integer-valued vectors are not integers
+    import osyris as osy
+
+    for dtype in ("int32", "int64", "float32"):
+        for comps in ((1, 1), (0, 5, 2), (3, 4), (1, 2, 2), (-2, 1, 1)):
+            cases += 1
+            distinct.add(("norm", dtype, comps))
+            v = osy.Vector(*[osy.Array(values=np.array([c, 2 * c], dtype=dtype), unit="m") for c in comps])
+            want = np.sqrt(sum((np.array([c, 2 * c], dtype="float64")) ** 2 for c in comps))
+            got = np.asarray(v.norm.values, dtype="float64")
+            if not np.allclose(got, want, rtol=1e-6) or str(v.norm.unit) != str(v.x.unit):
+                viol.append({"name": "C09.native.norm[dtype]", "input": [dtype, list(comps)],
+                             "observed": "norm of %s-vector %s is %s %s, expected %s m" % (dtype, comps, got.tolist(), v.norm.unit, want.tolist())})
     for rel in ("same", "compatible"):
         cases += 1
         distinct.add(("cross", rel))
